@@ -61,6 +61,14 @@ func (c11) Gen(tier string, seed int64) []fw.Unit {
 			}
 		}
 	}
+	// degenerate and unusual schemes for every family
+	for _, fam := range families {
+		for k := int64(0); k < degenerateSchemeClasses; k++ {
+			for rep := 0; rep < 2; rep++ {
+				us = append(us, randomValidReq(r, fam, degenerateSchemeBase+k).Unit("render", "degenerate-scheme"))
+			}
+		}
+	}
 	// size classes: large symbols under a scheme
 	big := []Req{
 		{Fam: "qr", S: randBytes(r, 2000, printAB), I: []int64{0, 0}, Scheme: 9},
@@ -174,6 +182,14 @@ func (p c11) Exec(c *fw.Ctx, u *fw.Unit) {
 	}
 	o := req.call()
 	if !wellFormed(c, req.entryName(), inner, &o) {
+		if o.panic == nil && o.err != nil && req.Scheme >= 0 {
+			// acceptance must not depend on the colour scheme
+			pr := req
+			pr.Scheme = -1
+			if po := pr.call(); po.panic == nil && po.err == nil && po.bc != nil {
+				c.Violation("render/"+req.Fam+"/rejected-under-scheme", "the WithColor variant refuses content that the plain variant accepts: "+o.err.Error(), inner, fmt.Sprintf("%#v", schemeOf(req.Scheme)))
+			}
+		}
 		return
 	}
 	bc := o.bc
@@ -192,6 +208,36 @@ func (p c11) Exec(c *fw.Ctx, u *fw.Unit) {
 	// pixels: exactly two colours
 	var g *refdec.Grid
 	var err error
+	if req.Scheme >= 0 && sameColor(fgc, bgc) {
+		// ink == paper: nothing to decode, but the request is legal; every pixel is that
+		// colour, the scheme is reported, and the size equals the plain variant's
+		pr := req
+		pr.Scheme = -1
+		po := pr.call()
+		if po.bc == nil {
+			c.Violation("render/"+fam+"/plain-differs", "plain variant failed where the WithColor variant succeeded", inner, "")
+			return
+		}
+		if po.bc.Bounds() != b {
+			c.Violation("render/"+fam+"/pattern-depends-on-scheme", fmt.Sprintf("bounds %v under the scheme, %v plain", b, po.bc.Bounds()), inner, "")
+			return
+		}
+		for y := 0; y < b.Dy(); y++ {
+			for x := 0; x < b.Dx(); x++ {
+				if !sameColor(bc.At(x, y), fgc) {
+					c.Violation("render/"+fam+"/pixel-not-in-scheme", fmt.Sprintf("pixel (%d,%d) = %#v is not the scheme's (single) colour", x, y, bc.At(x, y)), inner, "")
+					return
+				}
+			}
+		}
+		if bcc, ok := bc.(barcode.BarcodeColor); !ok || !sameScheme(bcc.ColorScheme(), scheme) {
+			c.Violation("render/"+fam+"/colorscheme", "ColorScheme() does not report the scheme passed", inner, "")
+			return
+		}
+		c.Nontrivial(req.Key())
+		c.Cover("colour_model", "ink==paper")
+		return
+	}
 	if req.Scheme >= 0 {
 		g, err = gridScheme(bc, fgc, bgc)
 		if err != nil {
@@ -210,7 +256,7 @@ func (p c11) Exec(c *fw.Ctx, u *fw.Unit) {
 		if bcc, ok := bc.(barcode.BarcodeColor); !ok {
 			c.Violation("render/"+fam+"/no-colorscheme-accessor", "barcode from a WithColor entry point does not report ColorScheme()", inner, "")
 			return
-		} else if got := bcc.ColorScheme(); got != scheme {
+		} else if got := bcc.ColorScheme(); !sameScheme(got, scheme) {
 			c.Violation("render/"+fam+"/colorscheme", fmt.Sprintf("ColorScheme() = %#v, passed %#v", got, scheme), inner, "")
 			return
 		}
